@@ -82,7 +82,8 @@ PROPS["C08"] = P(
     "step(close) from every INV pre-state (handle present or re-sent on a fresh connection, nameplate "
     "released or not, other side open or not): no exception, `closed`, exact deletion set in one commit, "
     "other bundles untouched, the other side's subscription kept",
-    lambda tier: all_ops(tier, ["C08.", "INV.mb_has_open", "INV.fk_mailbox_side"]))
+    lambda tier: all_ops(tier, ["C08.", "INV.mb_has_open", "INV.fk_mailbox_side"]) +
+                 restart_tasks(tier, [(["open_add", "open_close_other"], ["close"])]))
 
 PROPS["C09"] = P(
     "at every transport send in every step of every operation both stores have no open transaction, and "
@@ -159,7 +160,8 @@ PROPS["C06"] = P(
     "the sweep per bundle, leaves every row owned by another app unchanged; (output consistency) two-run "
     "product: same rows for the acting app, two independent arbitrary populations for the other apps, same "
     "command -> identical frames on the app's connections and identical rows for the app",
-    lambda tier: [dict(ob="prod.isolation", params=dict(tier=tier), want=["C06."])] + all_ops(tier, ["C06."]))
+    lambda tier: [dict(ob="prod.isolation", params=dict(tier=tier), want=["C06."])] + all_ops(tier, ["C06."]) +
+                 restart_tasks(tier, [(["list_other_app"], ["list", "allocate", "claim"])]))
 
 RESTART_ALL = lambda tier: [
     (["open_add", "claim", "open_close_other"], ["list", "allocate", "claim", "release", "open", "close", "sweep", "openadd"]),
@@ -167,6 +169,7 @@ RESTART_ALL = lambda tier: [
     (["open_add_sweep"], ["open", "claim", "list", "openadd"]),
     (["alloc_sweep_claim"], ["claim", "allocate"] if tier == "thorough" else ["claim"]),
     (["claim_list_open_close", "claim_list_release"], ["list", "allocate", "claim", "open"]),
+    (["list_other_app"], ["list", "allocate", "claim"]),
 ]
 
 PROPS["C11"] = P(
